@@ -49,7 +49,8 @@ REGISTRY = {
             "hover_text_is_decl_type", "frame_roundtrip", "frames_roundtrip", "readFrame_ok_splits",
             "server_wire", "server_output_exact"],
     "C20": ["check_exit_iff_error", "cli_exit_args_literal_one", "cli_check_single_exit_guard", "check_exit_byte_iff_error",
-            "sortDiags_perm", "sortDiags_sorted", "report_exit_iff", "report_exit_sorted", "report_total", "report_lists_every_diagnostic"],
+            "sortDiags_perm", "sortDiags_sorted", "report_exit_iff", "report_exit_sorted", "report_total", "report_lists_every_diagnostic",
+            "cliRun_exit_iff", "cliRun_ok_prints_result", "cliRun_error_message", "cliRun_parse_errors", "parseErrorsToString_lists"],
 }
 
 # evidence level per property: "proof" only when REGISTRY[pid] is non-empty and carries the property
